@@ -197,7 +197,7 @@ def random_program(rng, *, max_cleanups=4, kinds=RAISE_KINDS, p_raise=0.35, feat
 def patch_action(rng, p):
     attr = rng.choice(["a", "b", "c", "missing1", "missing2", "prop"])
     if attr in ("a", "b", "c") and attr not in p["scratch"]:
-        p["scratch"][attr] = rng.choice([None, 0, "orig-" + attr, False])
+        p["scratch"][attr] = rng.choice([None, 0, "orig-" + attr, False, "@any", "@amb"])
     return ["patch", attr, rng.choice([None, 1, "patched", 0])]
 
 
